@@ -7,7 +7,7 @@
    third-party decoder returned for it), so the comparison covers openGemini's own framing and the raw layout fed to
    the compressor. *)
 From Coq Require Import ZArith List Bool.
-From OG Require Import C07.Gen_Consts C07.Model C07.ModelRows C07.ModelFile C07.ModelPreAgg C07.ModelCMSelf.
+From OG Require Import C07.Gen_Consts C07.Model C07.ModelRows C07.ModelFile C07.ModelPreAgg C07.ModelCMSelf C07.ModelStats.
 Import ListNotations.
 Open Scope Z_scope.
 
@@ -221,3 +221,29 @@ Definition check_cm_self (dict : list (list Z)) (k : Z) (idxs : list Z) (m : chu
   (if cm_self_ok dict k idxs m && (0 <=? k) && (k <? n_scales) then 0 else 1) +
   (if list_eqb (e_cm_self k idxs m) real then 0 else 2) +
   (match d_cm_self dict real with Some (m', []) => if list_eqb (e_cm_self k idxs m') real then 0 else 4 | _ => 4 end).
+
+(* stored statistics of one column of a written file (as the real reader decodes them) against the builder models run on
+   the rows, segment by segment, seen through the statistics codec of the file's chunk-meta-compress-mode. Four variants of
+   the tree: builder repaired / today's (finding C07-preagg-sentinel-init) x float zero test of the variable-length form
+   repaired / today's (finding C07-preagg-vlc-zero-flag). Bit set = that variant does NOT give the stored statistics:
+     1 (repaired builder, repaired codec) = the reference   2 (today's builder, repaired codec)
+     4 (repaired builder, today's codec)                    8 (today's builder, today's codec)
+   A single-row block stores only (min, minTime): every variant is viewed through that marshalling. Floats: the sum (IEEE
+   addition) is not compared. *)
+Definition one_row_view (s : stat) : stat := if s_cnt s =? 1 then one_stat (s_min s) (s_minT s) else s.
+Definition check_stats_int (self : bool) (segs : list (list srow)) (stored : stat) : Z :=
+  let a := if stat_eqb (one_row_view (int_build true segs)) stored then 0 else 1 in
+  let b := if stat_eqb (one_row_view (int_build false segs)) stored then 0 else 1 in
+  a + 2 * b + 4 * a + 8 * b.
+Definition no_sum (s : stat) : stat := set_sum s 0.
+(* what today's float writer + reader make of statistics under mode self: min = max = 0 as floats -> all three +0.0 *)
+Definition zero_flag_view (self : bool) (s : stat) : stat :=
+  if self && negb (s_cnt s =? 1) && fl_zero_current s then mkStat 0 0 (s_minT s) (s_maxT s) 0 (s_cnt s) else s.
+Definition check_stats_float (self : bool) (segs : list (list srow)) (stored : stat) : Z :=
+  let add := fun _ _ : Z => 0 in
+  let rep := one_row_view (fl_build add true segs) in
+  let cur := one_row_view (fl_build add false segs) in
+  let ne (x : stat) := if stat_eqb (no_sum x) (no_sum stored) then 0 else 1 in
+  ne rep + 2 * ne cur + 4 * ne (zero_flag_view self rep) + 8 * ne (zero_flag_view self cur).
+(* bitwise or of the per-column words *)
+Fixpoint lor_all (l : list Z) : Z := match l with [] => 0 | x :: r => Z.lor x (lor_all r) end.
